@@ -69,13 +69,22 @@ theorem C06_commit_overlimit_rejected (c : CommitObj)
   rw [C06_fact_writeStringGuard]
   exact commit_overlimit_err c h
 
-/-- Commit times: every instant with a 10-character rendering and every whole-minute zone
+/-- Commit times: every instant with a 10-character rendering and every whole-minute zone within ±24:59
     round-trips; every other instant is refused at write time; the zero time round-trips. -/
 theorem C06_time_roundtrip (sec zoneMin : Int) (hs : -999999999 ≤ sec ∧ sec < 10000000000)
-    (hz : -6000 < zoneMin ∧ zoneMin < 6000) :
+    (hz : -1500 < zoneMin ∧ zoneMin < 1500) :
     (encodeTime sec (zoneMin * 60)).length = 16 ∧
     readTime (encodeTime sec (zoneMin * 60)) = .ok (some (sec, zoneMin * 60)) :=
   time_roundtrip sec zoneMin hs hz
+
+/-- … but a zone offset of 25 hours or more is written (the text still has 16 bytes) and cannot be
+    read back: `time.Parse` refuses the hour. Known finding C06-time-zone-over-24h (no real zone is
+    that far from UTC; `time.FixedZone` accepts it). -/
+theorem C06_time_zone_over_24h_unreadable (sec zoneMin : Int) (hs : -999999999 ≤ sec ∧ sec < 10000000000)
+    (hz : 1500 ≤ zoneMin ∧ zoneMin < 6000) :
+    (encodeTime sec (zoneMin * 60)).length = 16 ∧
+    readTime (encodeTime sec (zoneMin * 60)) = .err "time-zone" :=
+  time_zone_over_24h_unreadable sec zoneMin hs hz
 
 theorem C06_time_out_of_range_refused (sec z : Int) (hs : sec < -999999999 ∨ 10000000000 ≤ sec) :
     writeTime Facts.writeTimeGuard (some (sec, z)) = .err "time-out-of-range" := by
